@@ -411,20 +411,13 @@ func readerWalk(c *core.Check) bool {
 		return false
 	}
 	c.AddTLC(jr.TLC)
+	c.Drift("Reader / Codec writer (step-level reader and writer machines)", jr.Drifts)
 	c.Add("traces_validated_against_impl", int64(len(events)))
 	c.Add("evaluations", int64(len(events)))
 	c.Add("distinct_nontrivial", int64(jr.Nontriv))
 	c.Cov["reader_walk"] = map[string]any{"objects": len(good), "documents": len(events), "documents_per_object_max": maxDocs, "design_cfg": cfg}
 	for _, rj := range jr.Rejects {
-		var why struct {
-			Reads  bool `json:"reads"`
-			Writes bool `json:"writes"`
-		}
-		json.Unmarshal([]byte(rj.Why), &why)
-		what := "the generated reader does not do what Reader.tla computes"
-		if why.Reads && !why.Writes {
-			what = "the value was read as Reader.tla computes, but marshalling it again does not give the token stream of the writer machine (Codec.WriteObj)"
-		}
+		what := "a document with a fault must be rejected naming a faulty property; a document the schema allows must decode losslessly and re-encode equivalently"
 		c.Violation(map[string]any{"case": info[rj.Case], "reject": rj}, fmt.Sprintf("reader / writer walk (c08): %s: %v", what, info[rj.Case]))
 	}
 	return true
